@@ -408,6 +408,11 @@ func isCeilTimes(v ssa.Value, dd ssa.Value, k float64) bool {
 			c, _ := ana.CallOf(dd)
 			return c != nil && ana.CalleeName(c.Common()) == "math.Ceil"
 		}
+		// (-d) * c is d * (-c)
+		if u, isU := pr[0].(*ssa.UnOp); isU && u.Op == token.SUB && isK && f == -k && u.X == dd {
+			c, _ := ana.CallOf(dd)
+			return c != nil && ana.CalleeName(c.Common()) == "math.Ceil"
+		}
 	}
 	return false
 }
